@@ -10,7 +10,7 @@ namespace Rscp.Tie.JsonIn
 /-- source of `e3dc_unmarshalJSONRequests` is unchanged -/
 theorem shape_e3dc_unmarshalJSONRequests : Rscp.Gen.Shape.e3dc_unmarshalJSONRequests = "5e23dabee6ba23e7a84cd29fe72394ea" := rfl
 /-- source of `e3dc_unmarshalJSONRequest` is unchanged -/
-theorem shape_e3dc_unmarshalJSONRequest : Rscp.Gen.Shape.e3dc_unmarshalJSONRequest = "c09166e8f8ff3bd81e2e5122c755b7d5" := rfl
+theorem shape_e3dc_unmarshalJSONRequest : Rscp.Gen.Shape.e3dc_unmarshalJSONRequest = "37691bfabac06033a34cec0c8ccc1dae" := rfl
 /-- source of `e3dc_unmarshalJSONValue` is unchanged -/
 theorem shape_e3dc_unmarshalJSONValue : Rscp.Gen.Shape.e3dc_unmarshalJSONValue = "1d65ecad1d5cb8b80b0a26af1209ee5d" := rfl
 /-- source of `e3dc_isJSONEmpty` is unchanged -/
@@ -24,7 +24,7 @@ theorem shape_e3dc_isJSONNumber : Rscp.Gen.Shape.e3dc_isJSONNumber = "9daae78b37
 /-- source of `e3dc_isJSONDataType` is unchanged -/
 theorem shape_e3dc_isJSONDataType : Rscp.Gen.Shape.e3dc_isJSONDataType = "5d5d27814dada12bdcce6f9989c90fe3" := rfl
 /-- source of `rscp_Message_UnmarshalJSON` is unchanged -/
-theorem shape_rscp_Message_UnmarshalJSON : Rscp.Gen.Shape.rscp_Message_UnmarshalJSON = "007c405e6cf03fb59e47b05aefe2aa2a" := rfl
+theorem shape_rscp_Message_UnmarshalJSON : Rscp.Gen.Shape.rscp_Message_UnmarshalJSON = "8943254b38aa55b3dea6ac1ab5f2c4f7" := rfl
 /-- source of `rscp_Message_UnmarshalJSONValue` is unchanged -/
 theorem shape_rscp_Message_UnmarshalJSONValue : Rscp.Gen.Shape.rscp_Message_UnmarshalJSONValue = "a5cb3e4daec3e8cf556dcdf8de33148e" := rfl
 /-- source of `rscp_DataType_newNumber` is unchanged -/
